@@ -59,7 +59,7 @@ pub fn respell(text: &str, spelling: &str) -> String {
 fn channels<T: DeserializeOwned + PartialEq + Debug>(text: &str) -> (bool, Option<String>, Option<T>) {
     let base: Result<Result<T, String>, String> = parse_via(text, "str");
     let base_ok = matches!(&base, Ok(Ok(_)));
-    let mut detail = None;
+    let mut detail: Option<String> = None;
     let mut agree = true;
     for sp in SPELLINGS {
         let t = respell(text, sp);
@@ -80,7 +80,102 @@ fn channels<T: DeserializeOwned + PartialEq + Debug>(text: &str) -> (bool, Optio
             }
         }
     }
+    // content damages (Wire.tla DamageKinds): one leaf of the document altered so that a validating field may
+    // become invalid - whatever the verdict, it must not depend on the channel
+    if agree {
+        if let Ok(v) = serde_json::from_str::<Value>(text) {
+            for dmg in content_damages(&v) {
+                let t = dmg.to_string();
+                let reference: Result<Result<T, String>, String> = parse_via(&t, "str");
+                for ch in CHANNELS {
+                    let r: Result<Result<T, String>, String> = parse_via(&t, ch);
+                    let same = match (&reference, &r) {
+                        (Ok(Ok(a)), Ok(Ok(b))) => a == b,
+                        (Ok(Err(_)), Ok(Err(_))) => true,
+                        _ => false,
+                    };
+                    if !same && agree {
+                        agree = false;
+                        let show = |r: &Result<Result<T, String>, String>| match r {
+                            Ok(Ok(_)) => "accepted".to_string(),
+                            Ok(Err(e)) => format!("rejected: {e}"),
+                            Err(p) => format!("panic: {p}"),
+                        };
+                        detail = Some(format!("damaged content, channel {ch}: str {} / this {} / text {}", show(&reference), show(&r), &t[..t.len().min(300)]));
+                    }
+                }
+            }
+        }
+    }
     (agree, detail, base.ok().and_then(|r| r.ok()))
+}
+
+/// every single-leaf damage of a document (bounded): strings shorter / longer / empty, numbers negative / huge,
+/// object members removed
+pub fn content_damages(v: &Value) -> Vec<Value> {
+    fn leaves(v: &Value, at: String, out: &mut Vec<(String, bool)>) {
+        match v {
+            Value::Object(o) => {
+                for (k, x) in o {
+                    let p = format!("{at}/{}", k.replace('~', "~0").replace('/', "~1"));
+                    out.push((p.clone(), true));
+                    leaves(x, p, out);
+                }
+            }
+            Value::Array(a) => {
+                for (i, x) in a.iter().enumerate() {
+                    leaves(x, format!("{at}/{i}"), out);
+                }
+            }
+            _ => {}
+        }
+    }
+    let mut ps = vec![];
+    leaves(v, String::new(), &mut ps);
+    let max_leaves = std::env::var("ITV_DAMAGE_LEAVES").ok().and_then(|s| s.parse().ok()).unwrap_or(40usize);
+    // spread the budget over the whole document
+    let step = (ps.len() / max_leaves).max(1);
+    let mut out = vec![];
+    for (p, _) in ps.iter().step_by(step) {
+        let cur = v.pointer(p).unwrap().clone();
+        let mut alts: Vec<Option<Value>> = vec![None]; // None = member removed
+        match &cur {
+            Value::String(s) => {
+                let mut shorter = s.clone();
+                shorter.pop();
+                alts.push(Some(json!(shorter)));
+                alts.push(Some(json!(format!("{s}0"))));
+                alts.push(Some(json!("")));
+            }
+            Value::Number(_) => {
+                alts.push(Some(json!(-1)));
+                alts.push(Some(json!(4294967296u64)));
+            }
+            _ => {}
+        }
+        for a in alts {
+            let mut m = v.clone();
+            match a {
+                Some(x) => {
+                    if x == cur {
+                        continue;
+                    }
+                    *m.pointer_mut(p).unwrap() = x;
+                }
+                None => {
+                    let (parent, key) = p.rsplit_once('/').unwrap();
+                    let key = key.replace("~1", "/").replace("~0", "~");
+                    if let Some(Value::Object(o)) = m.pointer_mut(parent) {
+                        o.remove(&key);
+                    } else {
+                        continue;
+                    }
+                }
+            }
+            out.push(m);
+        }
+    }
+    out
 }
 
 /// C16 over one value: parse(serialize(v)) == v and serialize(parse(serialize(v))) == serialize(v), compact and pretty
@@ -307,8 +402,17 @@ impl Ctx {
     pub fn run_doc(&mut self, scn: &Value) -> Value {
         let d = &scn["desc"];
         let meta = if scn["kind"] == "link" { build_link(d, &mut self.rng) } else { build_layout(d, &self.km, &mut self.rng) };
-        let nsigs = d["sigs"].as_u64().unwrap();
-        let sks: Vec<&in_toto::crypto::PrivateKey> = ["signer1", "signer2"].iter().take(nsigs as usize).map(|n| self.km.sk(n)).collect();
+        let signer_names: Vec<&str> = match (d["sigs"].as_u64(), d["sigs"].as_str()) {
+            (Some(n), _) => ["signer1", "signer2"].iter().take(n as usize).copied().collect(),
+            (_, Some("none")) => vec![],
+            (_, Some("one")) => vec!["signer1"],
+            (_, Some("two")) => vec!["signer1", "signer2"],
+            (_, Some("dup")) => vec!["signer1", "signer1"],
+            (_, Some("aba")) => vec!["signer1", "signer2", "signer1"],
+            (_, Some("dupdup")) => vec!["signer1", "signer1", "signer2", "signer2"],
+            other => panic!("sigs descriptor {other:?}"),
+        };
+        let sks: Vec<&in_toto::crypto::PrivateKey> = signer_names.iter().map(|n| self.km.sk(n)).collect();
         let block = Metablock::new(meta.clone(), &sks).unwrap();
         // C16 on the signed block, on the wrapper, and on the inner metadata type
         let (v1, t1, d1) = round_trip(&block);
@@ -453,7 +557,46 @@ pub fn run_pred(scn: &Value) -> Value {
     } else {
         res["judge_ok"] = json!(!matches!(&judged, Ok(Ok(_))));
     }
+    // the three predicate formats themselves (their types are reached through the wrapper's variant
+    // constructors): channels and round trip of the typed parsers
+    let mut typed_agree = true;
+    let mut typed_rt = true;
+    let mut typed_detail: Option<String> = None;
+    let mut typed_accepts = vec![];
+    let mut note = |name: &str, r: (bool, Option<String>, bool, Option<String>, bool)| {
+        let (agree, d1, rt, d2, accepted) = r;
+        if accepted {
+            typed_accepts.push(name.to_string());
+        }
+        if !agree {
+            typed_agree = false;
+            typed_detail.get_or_insert(format!("{name}: {}", d1.unwrap_or_default()));
+        }
+        if !rt {
+            typed_rt = false;
+            typed_detail.get_or_insert(format!("{name}: {}", d2.unwrap_or_default()));
+        }
+    };
+    note("link02", typed_pred(PredicateWrapper::LinkV0_2, &text));
+    note("slsa01", typed_pred(PredicateWrapper::SLSAProvenanceV0_1, &text));
+    note("slsa02", typed_pred(PredicateWrapper::SLSAProvenanceV0_2, &text));
+    res["typed_agree"] = json!(typed_agree);
+    res["typed_rt"] = json!(typed_rt);
+    res["typed_detail"] = json!(typed_detail);
+    res["typed_accepts"] = json!(typed_accepts);
     res
+}
+
+/// channels and round trip of one predicate format, the type being inferred from the wrapper's constructor
+fn typed_pred<T: DeserializeOwned + Serialize + PartialEq + Debug>(_ctor: fn(T) -> PredicateWrapper, text: &str) -> (bool, Option<String>, bool, Option<String>, bool) {
+    let (agree, detail, parsed) = channels::<T>(text);
+    match parsed {
+        Some(p) => {
+            let (v, t, d) = round_trip(&p);
+            (agree, detail, v && t, d, true)
+        }
+        None => (agree, detail, true, None, false),
+    }
 }
 
 fn minimal_pred(v: &str) -> Value {
